@@ -376,6 +376,29 @@ def _likelihood(mk, geom, p, r, k, noise="gauss-cov-scalar", j=0, name="y"):
     return d, make_data(noise, r, k, j)
 
 
+def make_user_likelihood(p, k, j=0, grad=True, geom="default", par="x", name="u"):
+    """UserDefinedLikelihood in the variable `par`: a smooth non-Gaussian log-density (sum of log(1+(x_i-c_i)^2) terms)
+    with its exact gradient (correct by construction) or without gradient_func; geom: 'none' (no geometry given),
+    'default', 'continuous1d'."""
+    import cuqi
+    c = O.locvec(p, k + j + 1) + 0.25
+    w = O.posvec(p, k + j)
+
+    def value(x):
+        x = np.asarray(x, float).ravel()
+        return float(-np.sum(w * np.log(1.0 + (x - c) ** 2)))
+
+    def gradient(x):
+        x = np.asarray(x, float).ravel()
+        return -2.0 * w * (x - c) / (1.0 + (x - c) ** 2)
+    # the parameter name of a user-defined likelihood is the argument name of its logpdf_func
+    ns = {"value": value}
+    exec("def logpdf(%s):\n    return value(%s)" % (par, par), ns)
+    G = {"none": None, "default": cuqi.geometry._DefaultGeometry1D(p), "continuous1d": cuqi.geometry.Continuous1D(p)}[geom]
+    return cuqi.likelihood.UserDefinedLikelihood(dim=p, logpdf_func=ns["logpdf"], gradient_func=gradient if grad else None,
+                                                 geometry=G, name=name)
+
+
 def gen_posterior(p, k, npts):
     import cuqi
     keys = ["prior", "model", "geom", "via"]
@@ -388,17 +411,30 @@ def gen_posterior(p, k, npts):
         combos.append(("funadj", geom, "direct"))
     for mk in ("matrix", "jac"):
         combos.append((mk, "default", "joint"))
+        # an extra observed quantity whose density does not depend on x: its evaluated density becomes a constant of the posterior
+        combos.append((mk, "default", "joint+evaluated"))
+    # member alphabet: the likelihood is a UserDefinedLikelihood (with / without gradient_func; geometry none / default / given)
+    for geom in ("none", "default", "continuous1d"):
+        combos.append(("userlik", geom, "direct"))
+    combos.append(("userlik-nograd", "default", "direct"))
     for prior in PRIORS:
         for mk, geom, via in combos:
             facets = {"prior": prior, "model": mk, "geom": geom, "via": via}
 
             def build(prior=prior, mk=mk, geom=geom, via=via, facets=facets):
                 pr, ins, out = make_prior(prior, p, k, npts)
+                if mk.startswith("userlik"):
+                    post = cuqi.distribution.Posterior(make_user_likelihood(p, k, grad=(mk == "userlik"), geom=geom), pr)
+                    return Case("Posterior", facets, post, ins, out, fd_targets=[post], **prior_int_points(prior, p, k, npts))
                 d, data = _likelihood(mk, geom, p, r, k)
                 if via == "direct":
                     post = cuqi.distribution.Posterior(cuqi.likelihood.Likelihood(d, data), pr)
                 else:
-                    post = cuqi.distribution.JointDistribution(d, pr)(y=data)
+                    dens, datas = [d, pr], {"y": data}
+                    if via == "joint+evaluated":
+                        dens.append(cuqi.distribution.Gaussian(np.zeros(2), cov=1.0, name="z"))
+                        datas["z"] = np.array([0.25, -0.5])
+                    post = cuqi.distribution.JointDistribution(*dens)(**datas)
                     if not isinstance(post, cuqi.distribution.Posterior):
                         raise TypeError("joint did not reduce to a Posterior: %s" % type(post).__name__)
                 if geom == "mappedsq-usergrad":
@@ -412,27 +448,36 @@ def gen_mlp(p, k, npts):
     D = cuqi.distribution
     keys = ["prior", "liks", "extra", "via"]
     r = p + 1
+    # member alphabet: every kind of density the library accepts as a member - Likelihood from a distribution (forward
+    # model kinds as before), UserDefinedLikelihood with ('user') / without ('user-nograd') gradient_func, an evaluated
+    # density (constant); several kinds mixed, the user-defined one first / in the middle / last
+    LIKS = ("matrix/jac", "matrix/funadj/dirjac", "jac/pde-jac", "matrix/nograd", "jac/jac",
+            "matrix/user", "user/jac", "matrix/user/jac", "jac/funadj/user", "matrix/user/user", "user/user", "matrix/user-nograd")
     for prior in ("gaussian", "gmrf", "cauchy", "uniform", "beta", "normal"):
-        for liks in ("matrix/jac", "matrix/funadj/dirjac", "jac/pde-jac", "matrix/nograd", "jac/jac"):
+        for liks in LIKS:
             for extra in ("none", "evaluated"):
                 for via in ("joint", "direct"):
-                    if extra == "evaluated" and via == "direct":
-                        continue
                     facets = {"prior": prior, "liks": liks, "extra": extra, "via": via}
 
                     def build(prior=prior, liks=liks, extra=extra, via=via, facets=facets):
                         pr, ins, out = make_prior(prior, p, k, npts)
-                        dists, datas = [], {}
+                        members, datas = [], {}         # members in the order given; data of the ordinary likelihoods
                         for j, mk in enumerate(liks.split("/")):
+                            if mk.startswith("user"):
+                                members.append(make_user_likelihood(p, k, j=j, grad=(mk == "user"), name="u%d" % j))
+                                continue
                             d, data = _likelihood(mk, "default", p, r, k, noise=("gauss-cov-scalar", "gauss-cov-dense", "gauss-cov-vector")[j % 3],
                                                   j=j, name="y%d" % j)
-                            dists.append(d)
+                            members.append(d)
                             datas["y%d" % j] = data
-                        fd_targets = dists + [pr]
                         if via == "direct":
-                            obj = D.MultipleLikelihoodPosterior(*[cuqi.likelihood.Likelihood(d, datas[d.name]) for d in dists], pr)
+                            dens = [cuqi.likelihood.Likelihood(d, datas[d.name]) if isinstance(d, D.Distribution) else d for d in members]
+                            dens.append(pr)
+                            if extra == "evaluated":
+                                dens.append(cuqi.density.EvaluatedDensity(-1.5, name="z"))
+                            obj = D.MultipleLikelihoodPosterior(*dens)
                         else:
-                            dens = list(dists) + [pr]
+                            dens = list(members) + [pr]
                             if extra == "evaluated":
                                 # an extra observed quantity whose density does not depend on x: becomes an EvaluatedDensity
                                 z = D.Gaussian(np.zeros(2), cov=1.0, name="z")
@@ -445,17 +490,32 @@ def gen_mlp(p, k, npts):
                         return Case("MultipleLikelihoodPosterior", facets, obj, ins, out, fd_targets=list(obj._densities),
                                     **prior_int_points(prior, p, k, npts))
                     yield "MultipleLikelihoodPosterior", keys, facets, build
-    # stacked joint of two distributions (a Distribution without analytic gradient)
-    keys = ["pair"]
-    for pair in ("gaussian/cauchy", "gaussian/gmrf"):
-        facets = {"pair": pair}
+    # stacked joint (a Distribution without analytic gradient: refuses, derivative under the FD option) of two
+    # distributions x, w and - member alphabet - further densities in x: an ordinary likelihood, a user-defined one,
+    # an evaluated density; a member with a bounded support (uniform) brings the boundary points of its box
+    keys = ["pair", "extra"]
+    for pair in ("gaussian/cauchy", "gaussian/gmrf", "gaussian/uniform"):
+        for extra in ("none", "lik", "user", "lik+user", "evaluated"):
+            facets = {"pair": pair, "extra": extra}
 
-        def build(pair=pair, facets=facets):
-            a, b = pair.split("/")
-            d1, i1, _ = make_prior(a, p, k, npts)
-            d2, i2, _ = make_prior(b, p, k + 1, npts)
-            d2.name = "w"
-            obj = D.JointDistribution(d1, d2)._as_stacked()
-            pts = [(n1, np.r_[x1, x2]) for (n1, x1), (n2, x2) in zip(i1, i2)]
-            return Case("_StackedJointDistribution", facets, obj, pts, fd_targets=[obj], **O.ipts(2 * p, k, npts))
-        yield "_StackedJointDistribution", keys, facets, build
+            def build(pair=pair, extra=extra, facets=facets):
+                a, b = pair.split("/")
+                d1, i1, _ = make_prior(a, p, k, npts)
+                d2, i2, _ = make_prior(b, p, k + 1, npts)
+                d2.name = "w"
+                dens = [d1, d2]
+                if "lik" in extra:
+                    d, data = _likelihood("jac", "default", p, r, k)
+                    dens.insert(0, cuqi.likelihood.Likelihood(d, data))
+                if "user" in extra:
+                    dens.append(make_user_likelihood(p, k, j=1, par="w", name="u"))
+                if extra == "evaluated":
+                    dens.append(cuqi.density.EvaluatedDensity(-1.5, name="z"))
+                obj = D.JointDistribution(*dens)._as_stacked()
+                pts = [(n1, np.r_[x1, x2]) for (n1, x1), (n2, x2) in zip(i1, i2)]
+                box = {}
+                if b == "uniform":      # same box as make_prior("uniform", p, k + 1, .)
+                    lvw, pvw = O.locvec(p, k + 1), O.posvec(p, k + 1)
+                    box = {"lo": np.r_[np.full(p, -np.inf), lvw - 1.0], "hi": np.r_[np.full(p, np.inf), lvw + 1.0 + pvw]}
+                return Case("_StackedJointDistribution", facets, obj, pts, fd_targets=[obj], **O.ipts(2 * p, k, npts, **box))
+            yield "_StackedJointDistribution", keys, facets, build
